@@ -1,4 +1,6 @@
 import PcfgVerif.Properties.ExpandCore
+import PcfgVerif.Lemmas.TrainedPrince
+import PcfgVerif.Properties.ProbsCore
 import PcfgVerif.Generated.CliOptions
 import PcfgVerif.Properties.PQCore
 import PcfgVerif.Lemmas.SoftFloatLemmas
@@ -120,6 +122,17 @@ theorem C17_cli_passes_options :
     ("--all_lower", "program_info['skip_case']", "None", "'store_const'", "not program_info['skip_case']", "'skip_case'") ∈
       Generated.CliOptions.princeOptions := by
   decide
+
+/-- **the PRINCE grammar of a trained ruleset** (`Prince/grammar.txt` is `calculate_probabilities` of the trainer's PRINCE counter):
+the count filed under a label is the number of sections carrying it over the parses of all passwords of the list - one per section -
+and every label is written once with count / total, most frequent first.  With `C17_order` / `C17_each_once` on that grid:
+PRINCE-LING emits the words of the labels the training list actually produced, weighted by how often it produced them. -/
+theorem C17_trained_prince_grammar (U : Detect.UEnv) (cfg : Detect.MWCfg) (pws : List CPs) (l : String) :
+    Trainer.sget (Trainer.train U cfg pws).prince l =
+      (pws.map fun pw => (Detect.parse U cfg (Trainer.pass1 U cfg pws) pw).labels.countP (· == l)).sum ∧
+    ∀ (items : List (String × Rat)) (v : String) (p : Rat),
+      (v, p) ∈ calcProbs ratOps items ↔ ∃ c, (v, c) ∈ items ∧ p = ratOps.div c (totalCount ratOps items) :=
+  ⟨Trainer.train_prince U cfg pws l, fun items v p => calcProbs_mem ratOps items v p⟩
 
 end C17
 end Pcfg
